@@ -144,6 +144,9 @@ def run(mut, tier='quick', suite=True):
     out['first'] = msgs[:2]
     out['checks'] = sorted({m.split()[0] for m in msgs})
     out['summary'] = lines[-1] if lines else ''
+    import glob
+    for d in glob.glob('/verif/out/%s/scratch-*' % prop):     # the CLI keeps scratch-run outputs; drop them
+        shutil.rmtree(d, ignore_errors=True)
     return out
 
 
@@ -157,5 +160,4 @@ if __name__ == '__main__':
         res.append(o)
         print(json.dumps(o, indent=1), flush=True)
     shutil.rmtree(COPY, ignore_errors=True)
-    shutil.copytree('/repo', COPY, symlinks=True)
     json.dump(res, open('/tmp/nbuild_c16_mut_%s.json' % ('_'.join(want) or 'all'), 'w'), indent=1)
